@@ -53,6 +53,9 @@ type Case struct {
 	NoSyntaxD   bool                `json:"noSyntaxD"`
 	Planted     string              `json:"planted"`
 	NoTargets   bool                `json:"noTargets"`
+	ProtoRef    string              `json:"protoRef"`
+	IncludePkg  bool                `json:"includePkg"`
+	PkgMode     string              `json:"pkgMode"`
 	Error       string              `json:"error"`
 	Image       []Entry             `json:"image"`
 }
@@ -93,7 +96,9 @@ func Render(c Case, f string) (string, int) {
 	} else {
 		label = "optional "
 	}
-	w("package " + pkgOf[f] + ";")
+	if pkgFor(c, f) != "" {
+		w("package " + pkgFor(c, f) + ";")
+	}
 	for _, g := range c.Imports[f] {
 		w(`import "` + PathOf[g] + `";`)
 	}
@@ -112,7 +117,7 @@ func Render(c Case, f string) (string, int) {
 		if g == "wkt" {
 			w(fmt.Sprintf("  %sgoogle.protobuf.Timestamp ref_wkt = %d;", label, num))
 		} else {
-			w(fmt.Sprintf("  %s%s.M%s ref_%s = %d;", label, pkgOf[g], g, g, num))
+			w(fmt.Sprintf("  %s.%s ref_%s = %d;", label, strings.TrimPrefix(pkgFor(c, g)+".M"+g, "."), g, num))
 		}
 		num++
 	}
@@ -126,6 +131,19 @@ func Render(c Case, f string) (string, int) {
 		line = n
 	}
 	return sb.String(), line
+}
+
+// pkgFor is the package a file declares under the case's package mode ("" = no package statement).
+func pkgFor(c Case, f string) string {
+	if f == "a" || f == "b" {
+		switch c.PkgMode {
+		case "ab-same":
+			return "shared"
+		case "ab-none":
+			return ""
+		}
+	}
+	return pkgOf[f]
 }
 
 func joinPaths(ps [][]string) []string {
@@ -183,6 +201,9 @@ func Workspace(ctx context.Context, c Case, dir string) (bufmodule.ModuleSet, ma
 		opts := []bufmodule.LocalModuleOption{bufmodule.LocalModuleWithFullNameAndCommitID(fn, uuid.NewSHA1(uuid.Nil, []byte(m)))}
 		if target && (len(c.Paths) > 0 || len(c.Excludes) > 0) {
 			opts = append(opts, bufmodule.LocalModuleWithTargetPaths(joinPaths(c.Paths), joinPaths(c.Excludes)))
+		}
+		if m == "A" && c.ProtoRef != "" && c.ProtoRef != "none" {
+			opts = append(opts, bufmodule.LocalModuleWithProtoFileTargetPath(PathOf[c.ProtoRef], c.IncludePkg))
 		}
 		builder.AddLocalModule(storage.ReadBucket(b), "mod"+m, target, opts...)
 	}
@@ -338,6 +359,36 @@ func run(in []byte) (*reg.Result, error) {
 					}
 					res.Violate(fmt.Sprintf("image-files/%s/%s", class, sel), caseInfo, "image files differ from the specification:\n got:\n  %s\nwant:\n  %s", strings.Join(got, "\n  "), strings.Join(want, "\n  "))
 					continue
+				}
+				// re-targeting the module set to the targets it already has (what lint and breaking do module by module)
+				// must not change anything: files, flags, owners, commits
+				if len(c.Paths) == 0 && len(c.Excludes) == 0 && (c.ProtoRef == "" || c.ProtoRef == "none") {
+					var ids []string
+					for _, m := range ms.Modules() {
+						if m.IsTarget() {
+							ids = append(ids, m.OpaqueID())
+						}
+					}
+					ms2, rerr := ms.WithTargetOpaqueIDs(ids...)
+					if rerr == nil {
+						var image2 bufimage.Image
+						image2, rerr = bufx.BuildImageForModuleSet(ctx, ms2)
+						if rerr == nil {
+							var a, b []string
+							for _, f := range image.Files() {
+								a = append(a, fmt.Sprintf("%s import=%v commit=%s", f.Path(), f.IsImport(), f.CommitID()))
+							}
+							for _, f := range image2.Files() {
+								b = append(b, fmt.Sprintf("%s import=%v commit=%s", f.Path(), f.IsImport(), f.CommitID()))
+							}
+							if strings.Join(a, "\n") != strings.Join(b, "\n") {
+								res.Violate("retarget-changes-image/"+sel, caseInfo, "after WithTargetOpaqueIDs(same targets) the image differs:\n before: %v\n after:  %v", a, b)
+							}
+						}
+					}
+					if rerr != nil {
+						res.Violate("retarget-error/"+sel, caseInfo, "WithTargetOpaqueIDs(same targets) or the build after it failed: %v", rerr)
+					}
 				}
 				// commit ids and descriptors
 				for _, f := range image.Files() {
